@@ -101,7 +101,7 @@ fn check_clauses(spec: &str) -> CaseResult {
     CaseResult { discs, nontrivial: true, outcome: "clauses".into(), skipped: None }
 }
 
-fn check_xexpand(spec: &str) -> CaseResult {
+pub fn check_xexpand(spec: &str) -> CaseResult {
     if spec.starts_with("clauses|") {
         return check_clauses(spec);
     }
